@@ -42,6 +42,8 @@ pub fn generate_c01(tier: &str, rng: &mut Prng) -> Vec<Case> {
                 ops.push(Case::new(format!("sign {n} {} {} {}", hex(&ks), hex(&msg), rng.next() >> 1)));
             }
         }
+        // a message longer than 65536 bytes
+        ops.push(Case::new(format!("sign {n} 010203 rep:70001:aa {}", rng.next() >> 1)));
         // several keys one after the other through locals on one thread
         for _ in 0..(if thorough { 6 } else { 1 }) {
             let seeds: Vec<String> = (0..3).map(|_| hex(&rng.bytes(32))).collect();
@@ -187,6 +189,13 @@ pub fn generate_c08(tier: &str, rng: &mut Prng) -> Vec<Case> {
             let rs = if i % 5 == 0 { 77 } else { rng.next() >> 1 };
             ops.push(Case::new(format!("sign_salt {n} {} {} {rs}", hex(ks), hex(&msg))));
         }
+        // a long message through sign and the independent verifier (which hashes salt || message itself): whatever sign
+        // feeds to the hash for long inputs must still be salt || message
+        for l in [65_537usize, 200_000] {
+            if thorough || l == 65_537 {
+                ops.push(Case::new(format!("sign {n} {} rep:{l}: {}", hex(&keys[0]), rng.next() >> 1)));
+            }
+        }
         // the salt binds the hashed point for every message length, also beyond 65536 SHAKE blocks
         for l in [0usize, 1, 96, 97, 1000, 65536 * 136 - 40 + 17] {
             if thorough || l != 97 {
@@ -203,6 +212,7 @@ pub fn generate_c08(tier: &str, rng: &mut Prng) -> Vec<Case> {
 
 pub fn oracle_c08(op: &[&str], out: &str) -> Verdict {
     match op[0] {
+        "sign" => oracle_c01(op, out),
         "salt_binds" => {
             if out == "differ" {
                 Verdict::Pass
